@@ -6,8 +6,8 @@
 //!   shadow.rs  RFC 9002 appendix A transcription (RTT estimator, PTO, loss delay, persistent congestion)
 //!   c15.rs     two-party KeySet simulator with an instrumented OneRttKey
 //!
-//! Environment: LINKSIM_QUICK_RUNS=n (size of the quick batch), LINKSIM_STRICT=1 (promote the two
-//! stricter-than-the-statement observations of C09/C10 to violations), LINKSIM_KEEP_GOING=1 (thorough:
+//! Environment: LINKSIM_QUICK_RUNS=n (size of the quick batch), LINKSIM_STRICT=1 (C10 only: promote the
+//! "CUBIC reduction for a packet sent before the previous recovery start" observation to a violation), LINKSIM_KEEP_GOING=1 (thorough:
 //! do not stop the batch after the first violations), LINKSIM_SLOW_MS=n (report slow runs), VERIF_DEBUG=1
 //! (replay prints the event log).
 
